@@ -375,7 +375,7 @@ func GenSchema(r *Rng) *GSchema {
 		for _, f := range in.Fields {
 			if r.Chance(1, 3) {
 				f.Default = GenLiteral(r, s, f.Type, 2, false)
-				if f.Type.Elem == nil && f.Type.Name == "Int" && r.Chance(1, 6) {
+				if f.Type.Elem == nil && f.Type.Name == "Int" && r.Chance(1, 2) {
 					f.Default = "99999999999999999999" // loads; cannot be evaluated as an Int
 				}
 			}
